@@ -127,12 +127,19 @@ func getSigBlock(f *os.File) (*zipslicer.Directory, []byte, error) {
 		return inz, nil, nil
 	}
 	// read signature block
+	if sigLoc < 0 || sigLoc > inz.DirLoc {
+		return nil, nil, errMalformed
+	}
 	blob := make([]byte, inz.DirLoc-sigLoc)
 	if _, err := f.ReadAt(blob, sigLoc); err != nil {
 		return nil, nil, err
 	}
 	// check magic
 	if !bytes.HasSuffix(blob, []byte(sigMagic)) {
+		return nil, nil, errMalformed
+	}
+	// size, ID-value pairs, size again, magic
+	if len(blob) < 8+8+len(sigMagic) {
 		return nil, nil, errMalformed
 	}
 	expected := uint64(len(blob) - 8)
